@@ -9,8 +9,8 @@ PROP = "C12"
 LEVEL = "exploration"
 RULE = (
     "X-ENUM: 14 constexpr bodies (arithmetic, HASH of quoted / wrapped / empty strings, big integers, negative / tiny floats, unicode strings, branch on argument, keyword default, string -> HASH, enum arithmetic, one constexpr calling "
-    "another, float / bool result, list result indexed at the call site, shift-or packing) x argument tuples x 9 call positions (main "
-    "statement, inside an expression, argument of a call, if test, range bound, function body inlined / out of line, library function called from the main file, and from a function of the same library) "
+    "another, float / bool result, list result indexed at the call site, shift-or packing) x argument tuples x 11 call positions (main "
+    "statement, inside an expression, argument of a call, if test, range bound, function body inlined / out of line, library function called from the main file, from a function of the same library, and two libraries that both define constexpr functions beside one in the main file, in both import orders) "
     "-- quick: every (body, position) pair with 1 argument tuple; thorough: 4 argument tuples each.  Oracle: the harness executes the "
     "same function source in a clean namespace of its own (HASH = bitwise signed CRC-32, the repository's enum classes) and builds "
     "the twin program in which the decorated function is deleted and the call is replaced by that literal; the real compiler's output "
@@ -87,6 +87,17 @@ def build_program(body, args, pos):
         main = "from library import lib\nwhile True:\n    lib.use(d0.Setting)\n    lib.use(2)\n    db.On = lib." + C + "\n    yield_()\n"
         twin_main = "from library import lib\nwhile True:\n    lib.use(d0.Setting)\n    lib.use(2)\n    db.On = " + L + "\n    yield_()\n"
         return main, twin_main, {"lib": lib}, {"lib": twin_lib}
+    if pos in ("library2a", "library2b"):
+        # two library modules that both define constexpr functions, plus one in the main file; both import orders
+        lib = deco + "def use(p):\n    db.Setting = p + 1\n"
+        twin_lib = "def use(p):\n    db.Setting = p + 1\n"
+        aux = "@constexpr\ndef other(a):\n    return a * 3 + 1\ndef use2(p):\n    db.On = p\n"
+        twin_aux = "def use2(p):\n    db.On = p\n"
+        imports = "from library import lib\nfrom library import aux\n" if pos == "library2a" else "from library import aux\nfrom library import lib\n"
+        loop = "while True:\n    lib.use(d0.Setting)\n    lib.use(2)\n    aux.use2(1)\n    aux.use2(d1.Setting)\n    db.On = {A}\n    db.Mode = {B}\n    db.Lock = {D}\n    yield_()\n"
+        main = imports + "@constexpr\ndef local(a):\n    return a + 7\n" + loop.format(A="lib." + C, B="aux.other(4)", D="local(5)")
+        twin_main = imports + loop.format(A=L, B="13", D="12")
+        return main, twin_main, {"lib": lib, "aux": aux}, {"lib": twin_lib, "aux": twin_aux}
     if pos == "libbody":
         # ... and called from a function of the same library module (finding F-12b)
         lib = deco + "def use(p):\n    db.Setting = p + " + C + "\n"
@@ -149,18 +160,18 @@ FORBIDDEN = [
 
 def build_cases(tier):
     cases = []
-    pos_all = list(POSITIONS) + ["library", "libbody"]
+    pos_all = list(POSITIONS) + ["library", "libbody", "library2a", "library2b"]
     k = 0
     for body, (_, argsets) in BODIES.items():
         for pi, pos in enumerate(pos_all):
             sets = argsets if tier == "thorough" else [argsets[(pi + k) % len(argsets)]]
             items = []
             for args in sets:
-                vs = [{}, {"inline_functions": False}] if pos in ("callarg", "funcbody", "library", "libbody") else [{}]
+                vs = [{}, {"inline_functions": False}] if pos in ("callarg", "funcbody", "library", "libbody", "library2a", "library2b") else [{}]
                 if tier == "thorough":
                     vs = vs + [{"compact": True, "remove_labels": True}]
                 items.append({"kind": "eval", "body": body, "args": list(args), "pos": pos, "variants": vs})
-            cases.append({"family": "W-F12b" if (pos == "libbody" or (pos == "library" and body == "nested")) else "EVAL", "items": items, "key": common.hkey("E", body, pos, sets, tier)})
+            cases.append({"family": "W-F12b" if (pos == "libbody" or (pos.startswith("library") and body == "nested")) else "EVAL", "items": items, "key": common.hkey("E", body, pos, sets, tier)})
         k += 1
     rej = [{"kind": "reject", "src": s} for s in FORBIDDEN]
     rej.append({"kind": "reject", "src": "from library import lib\ndb.Setting = lib.cx(2)\n", "modules": {"lib": "@constexpr\ndef cx(a):\n    return eval('a')\n"}})
